@@ -25,20 +25,20 @@ import OjgVerif.Gen.JpathFacts
   that the branch tables are what the reflect/Keyed/Indexed code does is established by the correspondence run
   on real typed Go data (reflect.SliceOf/ArrayOf/StructOf/MapOf values and two hand-written collections).
 * Filters are an abstract predicate (see Props/C05.lean): every theorem here says that two evaluators handed
-  THE SAME predicate agree. Which predicate a script denotes for an evaluator is outside the theorems — and for
-  a script that reads from `$` it is not the same one everywhere: Get, FirstFound, Has, GetNodes and FirstNode
-  hand their own argument to the script as the root, `Filter.locate` hands nil and `Filter.Walk` the tested
-  element (flags `locFilterRootNil`, `walkFilterRootSelf`, interpreted in `Driver.rootFor`; known findings
-  C11-locate-filter-root, C11-walk-filter-root). The run gives each model the predicate its evaluator applies
-  (`FilterSpec.filterOf` with that root) and judges the agreement; the Locate/Walk theorems cover scripts
-  without `$` and, for the others, the repaired binding only.
+  THE SAME predicate agree. Which predicate a script denotes for an evaluator is outside the theorems: it is
+  the run that gives each model the predicate of its evaluator (`FilterSpec.filterOf` with the root that
+  evaluator hands to a script, `Driver.rootFor`) and judges the agreement. For a script that reads from `$`
+  that was not the same predicate everywhere before 049a508: `Filter.locate` handed nil and `Filter.Walk` the
+  tested element where Get, FirstFound, Has, GetNodes and FirstNode hand their own argument (flags
+  `locFilterRootNil`, `walkFilterRootSelf`; repaired findings C11-locate-filter-root, C11-walk-filter-root).
+  Now every entry point hands the query argument, and the run checks that with `$` operands in filters below
+  the root (stream `root_box`, random scripts).
 
 Deviations are flags of `Cfg`; the general theorems are parametric in the configuration and name the flags
 they need off. `*_current` are the statements for **the code as it is now** (`Cfg.pinned`, after the fixes
-baff053, 0e0caaf, fa2ed77, 5d79291, 360668e, 1af5385, 21977aa, 6d09ec9, 6f19325, 927d89c, c654348): of the
-traversal flags only `locStartClamp` and `firstTypedSlice`, both pinned by the suite, are still on (and the
-three script-root flags, which no theorem reads). `*_before_*` document what
-failed before a fix (`Cfg.original`). -/
+baff053, 0e0caaf, fa2ed77, 5d79291, 360668e, 1af5385, 21977aa, 6d09ec9, 6f19325, 927d89c, c654348, 049a508,
+22c4424): only `locStartClamp` and `firstTypedSlice`, both pinned by the suite, are still on. `*_before_*`
+document what failed before a fix (`Cfg.original`). -/
 namespace OjgVerif.C11
 open OjgVerif OjgVerif.JPath
 
